@@ -249,6 +249,8 @@ class MeshTet1(MeshSimplex, Mesh3D):
         nonconf = np.ones(8 * nv, dtype=np.int8)
         split_edge = np.zeros((3, 8 * nv), dtype=np.int32)
         ns = 0
+        # index of the original element containing each new element
+        parent = np.arange(8 * nt, dtype=np.int32)
 
         while len(marked) > 0:
             nm = len(marked)
@@ -299,6 +301,7 @@ class MeshTet1(MeshSimplex, Mesh3D):
             # add new elements
             t[:, marked] = np.vstack((t3, t0, t2, tnew))
             t[:, nt:(nt + nm)] = np.vstack((t2, t1, t3, tnew))
+            parent[nt:(nt + nm)] = parent[marked]
             nt += nm
 
             check = np.nonzero(nonconf[:ns])[0].astype(np.int32)
@@ -317,10 +320,19 @@ class MeshTet1(MeshSimplex, Mesh3D):
             nonconf[check[i]] = 1
             marked = np.unique(j)
 
+        subdomains = None
+        if self._subdomains is not None:
+            subdomains = {
+                name: np.nonzero(np.isin(parent[:nt], ixs))[0].astype(np.int32)
+                for name, ixs in self._subdomains.items()
+            }
+
         return replace(
             self,
             doflocs=p[:, :nv],
             t=t[:, :nt],
+            _boundaries=None,
+            _subdomains=subdomains,
         )
 
     @classmethod
